@@ -123,6 +123,27 @@ type sweepLayer struct {
 	Flags []Flags
 }
 
+// rootedLayers: layers whose deviation budget starts below a search stage (the default derivation reaches the stage
+// at no cost), so that chains of two (thorough: three) search operators - embeddedDocument / compound / facet operator
+// around every other operator - meet every leaf class.
+func rootedLayers(thorough bool, fl []Flags) []sweepLayer {
+	b := 2
+	if thorough {
+		b = 3
+	}
+	var ls []sweepLayer
+	for _, r := range []string{"$search", "$searchMeta"} {
+		bb := b
+		if r == "$searchMeta" && !thorough {
+			bb = 1
+		}
+		ls = append(ls, sweepLayer{"rooted:" + r, GenOpts{OneGate: true, LeafSet: 1, Slots: []int{4}, RootStage: r}, bb, fl})
+	}
+	return ls
+}
+
+const rootedRule = "; search stages as the root: every derivation with <=2 (thorough 3) non-default search operators below $search and <=1 (thorough 3) below $searchMeta (the deviation budget starts below the stage), reduced leaf alphabet incl. $date / $oid / $binary"
+
 type sweepCase struct {
 	C     *Case
 	Line  string
